@@ -241,6 +241,40 @@ def check(ctx):
     ctx.ob("R01-f", run, "the coroutine runs inside the handle's own cancel scope", inside,
            detail="" if inside else "`await self._coro` is not inside `with self._cancel_scope`", by=("with self._cancel_scope",))
 
+    # ---- R01-i a child whose coroutine never ran still gets a final status (F14) ------------------------------------------------------
+    # asyncio model: a Task cancelled before its first step ends without executing one statement of its coroutine (the CancelledError
+    # is thrown into the unstarted coroutine), so TaskHandle._run_coro records nothing; the done-callback - which runs for every task,
+    # before the host can resume - must finalise the handle in that case: outcome recorded, then completion signalled
+    hs = ctx.sites(done, "$H._finished_event.is_set()")
+    if ctx.need("R01-i", done, "the done-callback looks at the handle's completion event (`handle._finished_event.is_set()`)", len(hs), 1):
+        hv = u(hs[0][1]["H"])
+        fin_key = f"{hv}._finished_event.is_set()"
+
+        def step_i(st, e, c):
+            rec, fin = st
+            if c.is_exc:
+                return st
+            if e == "rec":
+                return (True, fin)
+            if e == "fin":
+                if not rec:
+                    return Bad("the done-callback signals completion of a handle without having recorded how the task ended")
+                if (fin_key, True) in c.facts_before:
+                    return Bad("the done-callback overwrites the outcome of a handle whose coroutine did record it")
+                return (rec, True)
+            return st
+
+        def at_exit_i(kind, st, facts):
+            if kind == "return" and not st[1] and (fin_key, True) not in facts:
+                return ("the done-callback returns without a final status on the handle although the task's coroutine may never have run "
+                        "(cancelled before its first step): the handle stays PENDING and handle.wait() never returns")
+            return None
+
+        ctx.paths("R01-i", done, [("rec", f"{hv}._exception = $X"), ("fin", f"{hv}._finished_event.set()")], step_i, (False, False), at_exit_i,
+                  instance="a never-started child is finalised by the done-callback")
+        for st_, env_ in ctx.sites(done, f"{hv}._exception = $X"):
+            ctx.require_at("R01-i", done, st_, [[f"not {fin_key}"]], instance="the done-callback records an outcome only on a handle that has none yet", what="outcome")
+
     # ---- R01-g status / outcome tables ------------------------------------------------------------------------------
     rel, hcls = ctx.repo.cls("TaskHandle", TASKS)
     status_cls = [n for n in hcls.body if isinstance(n, ast.ClassDef) and n.name == "Status"]
